@@ -1,14 +1,23 @@
 //! C20 — the resolver dispatches by DID method and is independent of completion order.
 //!
 //! (a) Σ single `resolve`: every DID of the universe × every handler table / gate count / failure point ×
-//!     both `Resolver` flavours: call log, result, unsupported-method error.
+//!     both `Resolver` flavours: call log, result, unsupported-method error; the same resolution once more on the
+//!     same resolver (same calls, same result).
 //! (b) `resolve_multiple`: every DID list up to the tier's length (duplicates, unsupported methods, a DID whose
 //!     handler cannot parse it, a failing DID) × every configuration × both flavours × EVERY order of opening the
 //!     gates the harness handlers wait on (E3b gate executor driven by the E1 choice explorer, whole tree).
 //!     Per execution: call log, key set, equality with single resolution, must-fail. Per list: the set of
-//!     outcomes over all schedules has size 1.
+//!     outcomes over all schedules has size 1; the same list given as the handler's own DID type has that outcome.
+//!     Not judged (recorded): which error surfaces when several DIDs fail, the ErrorCause variant resolve_multiple
+//!     reports for one failing DID, which handler answers after attach_handler("jwk") + attach_did_jwk_handler().
+//!     Handler tables also carry: a replaced decoy for `foo`, look-alike keys that no DID method can spell (`FOO`, `foo:bar`, ...),
+//!     a custom `jwk` handler attached before / after the built-in one, a `foo` handler whose DID type refuses one DID of its
+//!     method, three handler shapes (sequential gates, join of gates, a gate shared by all invocations), a DID for which the
+//!     handler answers with a document of another DID. Long lists (5-7 entries, up to 6 distinct gated DIDs) for a few tables.
 //! (c) did:jwk (E1, whole tree): public / private OKP, EC, RSA, oct JWKs × optional-member subsets × member order
-//!     × route (direct `expand_did_jwk`, both resolver flavours, `CoreDID` / `DIDJwk` typed input, resolve_multiple).
+//!     × route (direct `expand_did_jwk`, both resolver flavours, `CoreDID` / `DIDJwk` typed input, resolve_multiple, also
+//!     as a `DIDJwk` list with a second did:jwk DID). Expansion is demanded on public JWKs of registered members whose
+//!     use / key_ops / alg agree and that carry no x5c chain; a private JWK must not yield a document with private members.
 
 use identity_core::common::Object;
 use identity_did::{CoreDID, DIDJwk, DID};
@@ -65,8 +74,17 @@ static UNIVERSE: Lazy<Vec<String>> = Lazy::new(|| {
     "did:foob:1".into(),
     "did:fo:1".into(),
     "did:barfoo:1".into(),
+    // 11: every character class of a method-specific id; the foo handler answers it with the document of did:foo:1
+    ALIAS_DID.into(),
+    // 12: method `foo`, but the foo handler's DID type (PickyDid) refuses it
+    PICKY_REJECTED.into(),
+    // 13: a second did:jwk DID
+    format!("did:jwk:{}", b64url(format!(r#"{{"kty":"OKP","crv":"X25519","use":"enc","x":"{}"}}"#, b64url(&bytes(32, 9, 5))).as_bytes())),
   ]
 });
+const ALIAS_DID: &str = "did:foo:A.b-_%41:z";
+const ALIAS_TARGET: &str = "did:foo:1";
+const PICKY_REJECTED: &str = "did:foo:9";
 static DIDS: Lazy<Vec<CoreDID>> = Lazy::new(|| UNIVERSE.iter().map(|s| CoreDID::parse(s).expect("harness universe DID")).collect());
 fn uni(i: u8) -> &'static str {
   &UNIVERSE[i as usize]
@@ -79,6 +97,20 @@ const T_BAR: u8 = 2;
 const T_JWK: u8 = 4;
 /// a decoy handler `foo-old` is attached for `foo` first and then replaced by the real one
 const T_REPLACED: u8 = 8;
+/// a harness handler `jwk-custom` is attached for `jwk` BEFORE `attach_did_jwk_handler` (which of the two answers is not documented: recorded)
+const T_JWKC_FIRST: u8 = 16;
+/// `jwk-custom` is attached with `attach_handler` AFTER `attach_did_jwk_handler` (documented: the later handler replaces)
+const T_JWKC_LAST: u8 = 32;
+/// Keys no DID method can spell (a method name is 1*(a-z / 0-9)); attached last, in every table; must never be called.
+const DECOYS: [(&str, &str); 7] = [
+  ("FOO", "decoy:FOO"),
+  ("Bar", "decoy:Bar"),
+  ("JWK", "decoy:JWK"),
+  ("foo:bar", "decoy:foo:bar"),
+  ("did:foo", "decoy:did:foo"),
+  ("foo ", "decoy:foo-space"),
+  ("", "decoy:empty"),
+];
 
 #[derive(Serialize, Deserialize, Debug, Clone, PartialEq, Eq, Hash, PartialOrd, Ord)]
 struct Cfg {
@@ -88,6 +120,11 @@ struct Cfg {
   k_bar: u8,
   /// `Some(j)`: the foo handler fails on did:foo:2 after having awaited j of its gates (0 = before any)
   fail_at: Option<u8>,
+  /// shape of every `foo` handler invocation: 0 = its k_foo own gates one after the other; 1 = all its own gates awaited
+  /// jointly (it is polled again, and pending again on the still closed gate, whenever one of them opens); 2 = the first
+  /// gate is ONE gate shared by all foo invocations (they become ready in the same poll), then k_foo-1 own gates
+  #[serde(default)]
+  shape: u8,
 }
 
 #[derive(Serialize, Deserialize, Debug, Clone)]
@@ -115,44 +152,142 @@ impl std::error::Error for HErr {}
 
 type Log = Arc<Mutex<Vec<(String, String)>>>;
 
-/// What the harness handler `name` answers for `did` (built from the DID the handler RECEIVED).
+/// DID type of the harness's `foo` handlers: a `foo` DID whose method-specific id does not end in `9`
+/// (stands for a method-specific DID type, like `IotaDID`, that cannot represent every DID of its method).
+#[derive(Debug, Clone, PartialEq, Eq, PartialOrd, Ord, Hash)]
+struct PickyDid(CoreDID);
+impl PickyDid {
+  fn check(did: CoreDID) -> Result<Self, HErr> {
+    if did.method() == "foo" && !did.method_id().ends_with('9') {
+      Ok(PickyDid(did))
+    } else {
+      Err(HErr(format!("{did} is not a PickyDid")))
+    }
+  }
+}
+impl std::str::FromStr for PickyDid {
+  type Err = HErr;
+  fn from_str(s: &str) -> Result<Self, HErr> {
+    CoreDID::parse(s).map_err(|e| HErr(e.to_string())).and_then(PickyDid::check)
+  }
+}
+impl<'a> TryFrom<&'a str> for PickyDid {
+  type Error = HErr;
+  fn try_from(s: &'a str) -> Result<Self, HErr> {
+    s.parse()
+  }
+}
+impl TryFrom<CoreDID> for PickyDid {
+  type Error = HErr;
+  fn try_from(did: CoreDID) -> Result<Self, HErr> {
+    PickyDid::check(did)
+  }
+}
+impl From<PickyDid> for CoreDID {
+  fn from(d: PickyDid) -> CoreDID {
+    d.0
+  }
+}
+impl From<PickyDid> for String {
+  fn from(d: PickyDid) -> String {
+    d.0.into_string()
+  }
+}
+impl AsRef<CoreDID> for PickyDid {
+  fn as_ref(&self) -> &CoreDID {
+    &self.0
+  }
+}
+
+/// What the harness handler `name` answers when it RECEIVED `did`: a document that names the handler and the DID it was
+/// given; its id is that DID, except for ALIAS_DID, which is answered with the document of another DID.
 fn doc_for(name: &str, did: &str) -> CoreDocument {
   let mut props = Object::new();
   props.insert("resolvedBy".into(), Value::String(name.into()));
-  CoreDocument::builder(props).id(CoreDID::parse(did).expect("did")).build().expect("harness document")
+  props.insert("requested".into(), Value::String(did.into()));
+  let id = if did == ALIAS_DID { ALIAS_TARGET } else { did };
+  CoreDocument::builder(props).id(CoreDID::parse(id).expect("did")).build().expect("harness document")
 }
 
-async fn handler_steps(name: &'static str, k: u8, fail: Option<u8>, did: CoreDID, gates: Gates) -> Result<CoreDocument, HErr> {
+/// Awaits all its gates jointly: ready when every one is open; polled (and pending on the still closed ones) again
+/// whenever one of them opens.
+struct JoinGates(Vec<Option<vx::gate::Gate>>);
+impl Future for JoinGates {
+  type Output = ();
+  fn poll(mut self: Pin<&mut Self>, cx: &mut std::task::Context<'_>) -> std::task::Poll<()> {
+    let mut all = true;
+    for slot in self.0.iter_mut() {
+      if let Some(g) = slot {
+        if Pin::new(g).poll(cx).is_ready() {
+          *slot = None;
+        } else {
+          all = false;
+        }
+      }
+    }
+    if all {
+      std::task::Poll::Ready(())
+    } else {
+      std::task::Poll::Pending
+    }
+  }
+}
+
+async fn handler_steps(name: &'static str, k: u8, fail: Option<u8>, shape: u8, did: CoreDID, gates: Gates) -> Result<CoreDocument, HErr> {
   let fail_here = if did.as_str() == FAILING_DID { fail } else { None };
+  let failed = || Err(HErr(format!("{name} handler failed on {did}")));
+  if shape == 1 {
+    if fail_here == Some(0) {
+      return failed();
+    }
+    JoinGates((0..k).map(|i| Some(gates.gate(format!("{did}/{i}")))).collect()).await;
+    if fail_here.is_some() {
+      return failed();
+    }
+    return Ok(doc_for(name, did.as_str()));
+  }
   for i in 0..k {
     if fail_here == Some(i) {
-      return Err(HErr(format!("{name} handler failed on {did}")));
+      return failed();
     }
-    gates.gate(format!("{did}/{i}")).await;
+    if shape == 2 && i == 0 {
+      gates.gate(format!("{name}/shared")).await;
+    } else {
+      gates.gate(format!("{did}/{i}")).await;
+    }
   }
   if fail_here == Some(k) {
-    return Err(HErr(format!("{name} handler failed on {did}")));
+    return failed();
   }
   Ok(doc_for(name, did.as_str()))
 }
 
 type SendFut = Pin<Box<dyn Future<Output = Result<CoreDocument, HErr>> + Send>>;
-fn handler_ss(name: &'static str, k: u8, fail: Option<u8>, log: Log, gates: Gates) -> impl Fn(CoreDID) -> SendFut + Clone + Send + Sync + 'static {
-  move |did: CoreDID| {
+fn handler_ss<D: Into<CoreDID> + Send + 'static>(
+  name: &'static str,
+  k: u8,
+  fail: Option<u8>,
+  shape: u8,
+  log: Log,
+  gates: Gates,
+) -> impl Fn(D) -> SendFut + Clone + Send + Sync + 'static {
+  move |did: D| {
+    let did: CoreDID = did.into();
     log.lock().unwrap().push((name.to_string(), did.as_str().to_string()));
-    Box::pin(handler_steps(name, k, fail, did, gates.clone()))
+    Box::pin(handler_steps(name, k, fail, shape, did, gates.clone()))
   }
 }
 type LocalFut = Pin<Box<dyn Future<Output = Result<CoreDocument, HErr>>>>;
 /// Same handler for the single-threaded flavour; its future holds an `Rc` across every await (it is not `Send`).
-fn handler_st(name: &'static str, k: u8, fail: Option<u8>, log: Log, gates: Gates) -> impl Fn(CoreDID) -> LocalFut + Clone + 'static {
+fn handler_st<D: Into<CoreDID> + 'static>(name: &'static str, k: u8, fail: Option<u8>, shape: u8, log: Log, gates: Gates) -> impl Fn(D) -> LocalFut + Clone + 'static {
   let token = Rc::new(std::cell::Cell::new(0u32));
-  move |did: CoreDID| {
+  move |did: D| {
+    let did: CoreDID = did.into();
     log.lock().unwrap().push((name.to_string(), did.as_str().to_string()));
     let token = token.clone();
     let gates = gates.clone();
     Box::pin(async move {
-      let r = handler_steps(name, k, fail, did, gates).await;
+      let r = handler_steps(name, k, fail, shape, did, gates).await;
       token.set(token.get() + 1);
       r
     })
@@ -183,15 +318,22 @@ fn build(flavour: u8, cfg: &Cfg, log: &Log, gates: &Gates) -> AnyResolver {
     ($r:ident, $h:ident) => {{
       if cfg.table & T_FOO != 0 {
         if cfg.table & T_REPLACED != 0 {
-          $r.attach_handler("foo".to_owned(), $h("foo-old", cfg.k_foo, None, log.clone(), gates.clone()));
+          // the replaced handler has another DID type (CoreDID) than its replacement
+          $r.attach_handler("foo".to_owned(), $h::<CoreDID>("foo-old", cfg.k_foo, None, cfg.shape, log.clone(), gates.clone()));
         }
-        $r.attach_handler("foo".to_owned(), $h("foo", cfg.k_foo, cfg.fail_at, log.clone(), gates.clone()));
+        $r.attach_handler("foo".to_owned(), $h::<PickyDid>("foo", cfg.k_foo, cfg.fail_at, cfg.shape, log.clone(), gates.clone()));
       }
       if cfg.table & T_BAR != 0 {
-        $r.attach_handler("bar".to_owned(), $h("bar", cfg.k_bar, None, log.clone(), gates.clone()));
+        $r.attach_handler("bar".to_owned(), $h::<CoreDID>("bar", cfg.k_bar, None, 0, log.clone(), gates.clone()));
+      }
+      if cfg.table & T_JWKC_FIRST != 0 {
+        $r.attach_handler("jwk".to_owned(), $h::<CoreDID>("jwk-custom", cfg.k_bar, None, 0, log.clone(), gates.clone()));
       }
       if cfg.table & T_JWK != 0 {
         $r.attach_did_jwk_handler();
+      }
+      if cfg.table & T_JWKC_LAST != 0 {
+        $r.attach_handler("jwk".to_owned(), $h::<CoreDID>("jwk-custom", cfg.k_bar, None, 0, log.clone(), gates.clone()));
       }
       // `qux`: a handler whose DID type is DIDJwk; a did:qux DID never converts to it
       let l = log.clone();
@@ -199,6 +341,10 @@ fn build(flavour: u8, cfg: &Cfg, log: &Log, gates: &Gates) -> AnyResolver {
         l.lock().unwrap().push(("qux".to_string(), did.to_string()));
         async move { Ok::<CoreDocument, HErr>(doc_for("qux", did.as_ref().as_str())) }
       });
+      // look-alike keys, attached last: none of them is the method of any DID
+      for (key, name) in DECOYS {
+        $r.attach_handler(key.to_owned(), $h::<CoreDID>(name, 0, None, 0, log.clone(), gates.clone()));
+      }
     }};
   }
   if flavour == 0 {
@@ -224,6 +370,9 @@ enum Exp {
   Handler { name: &'static str, fails: bool, gates: u8 },
   /// the built-in did:jwk handler
   Jwk,
+  /// `attach_handler("jwk", custom)` followed by `attach_did_jwk_handler()`: the documentation of the latter does not say
+  /// that it replaces; whichever of the two answers single resolution is taken as the registered one (see `settle`)
+  JwkEither,
 }
 impl Exp {
   fn fails(&self) -> bool {
@@ -235,7 +384,15 @@ impl Exp {
       Exp::Unparsable => "did-not-parsable-by-handler",
       Exp::Handler { fails: true, .. } => "handler-error",
       Exp::Handler { .. } => "handler-ok",
-      Exp::Jwk => "did-jwk",
+      Exp::Jwk | Exp::JwkEither => "did-jwk",
+    }
+  }
+  /// Resolves `JwkEither` by what single resolution did (a harness handler call was logged, or none).
+  fn settle(self, cfg: &Cfg, single_log: &[(String, String)]) -> Exp {
+    match self {
+      Exp::JwkEither if single_log.iter().any(|(h, _)| h == "jwk-custom") => Exp::Handler { name: "jwk-custom", fails: false, gates: cfg.k_bar },
+      Exp::JwkEither => Exp::Jwk,
+      x => x,
     }
   }
 }
@@ -245,8 +402,12 @@ fn method_of(did: &str) -> &str {
 fn expect(cfg: &Cfg, did: &str) -> Exp {
   let m = method_of(did);
   match m {
+    "foo" if cfg.table & T_FOO != 0 && did == PICKY_REJECTED => Exp::Unparsable,
     "foo" if cfg.table & T_FOO != 0 => Exp::Handler { name: "foo", fails: did == FAILING_DID && cfg.fail_at.is_some(), gates: cfg.k_foo },
     "bar" if cfg.table & T_BAR != 0 => Exp::Handler { name: "bar", fails: false, gates: cfg.k_bar },
+    "jwk" if cfg.table & T_JWKC_LAST != 0 => Exp::Handler { name: "jwk-custom", fails: false, gates: cfg.k_bar },
+    "jwk" if cfg.table & T_JWKC_FIRST != 0 && cfg.table & T_JWK != 0 => Exp::JwkEither,
+    "jwk" if cfg.table & T_JWKC_FIRST != 0 => Exp::Handler { name: "jwk-custom", fails: false, gates: cfg.k_bar },
     "jwk" if cfg.table & T_JWK != 0 => Exp::Jwk,
     "qux" => Exp::Unparsable,
     _ => Exp::Unsupported(m.to_string()),
@@ -292,6 +453,8 @@ struct Exec<T> {
   res: Res<T>,
   log: Vec<(String, String)>,
   schedule: Vec<String>,
+  /// single resolution only: result and call log of a second `resolve` of the same DID on the same resolver
+  again: Option<(Res<T>, Vec<(String, String)>)>,
 }
 
 fn run_single(flavour: u8, cfg: &Cfg, did: u8) -> Exec<String> {
@@ -300,29 +463,44 @@ fn run_single(flavour: u8, cfg: &Cfg, did: u8) -> Exec<String> {
   let target = &DIDS[did as usize];
   let r = guard(|| {
     let resolver = build(flavour, cfg, &log, &gates);
-    let mut ch = Chooser::replay(&[]);
-    let out = match run_with_gates(resolver.resolve(target), &gates, &mut ch) {
-      GateRun::Done(Ok(doc)) => Res::Ok(doc_json(&doc)),
-      GateRun::Done(Err(e)) => {
-        let (v, d) = err_desc(&e);
-        Res::Err(v, d)
+    let once = |resolver: &AnyResolver| {
+      let mut ch = Chooser::replay(&[]);
+      match run_with_gates(resolver.resolve(target), &gates, &mut ch) {
+        GateRun::Done(Ok(doc)) => Res::Ok(doc_json(&doc)),
+        GateRun::Done(Err(e)) => {
+          let (v, d) = err_desc(&e);
+          Res::Err(v, d)
+        }
+        GateRun::Deadlock => Res::Deadlock,
       }
-      GateRun::Deadlock => Res::Deadlock,
     };
-    out
+    let first = once(&resolver);
+    let split = log.lock().unwrap().len();
+    // the same resolver once more (the gates are open by now: the handler is not suspended a second time)
+    let second = once(&resolver);
+    (first, split, second)
   });
-  let res = r.unwrap_or_else(|p| Res::Panic(p.into()));
-  let log = log.lock().unwrap().clone();
-  Exec { res, log, schedule: gates.schedule() }
+  let mut log = log.lock().unwrap().clone();
+  match r {
+    Ok((res, split, second)) => {
+      let second_log = log.split_off(split);
+      Exec { res, log, schedule: gates.schedule(), again: Some((second, second_log)) }
+    }
+    Err(p) => Exec { res: Res::Panic(p.into()), log, schedule: gates.schedule(), again: None },
+  }
 }
 
 fn run_multi(flavour: u8, cfg: &Cfg, list: &[u8], ch: &mut Chooser) -> Exec<BTreeMap<String, String>> {
+  let dids: Vec<CoreDID> = list.iter().map(|i| DIDS[*i as usize].clone()).collect();
+  run_multi_as(flavour, cfg, &dids, ch)
+}
+
+fn run_multi_as<D: DID>(flavour: u8, cfg: &Cfg, dids: &[D], ch: &mut Chooser) -> Exec<BTreeMap<String, String>> {
   let log: Log = Default::default();
   let gates = Gates::new();
-  let dids: Vec<CoreDID> = list.iter().map(|i| DIDS[*i as usize].clone()).collect();
   let r = guard(|| {
     let resolver = build(flavour, cfg, &log, &gates);
-    let out = match run_with_gates(resolver.resolve_multiple(&dids), &gates, ch) {
+    let out = match run_with_gates(resolver.resolve_multiple(dids), &gates, ch) {
       // sorted: nothing that came out of a HashMap is compared in its own order
       GateRun::Done(Ok(map)) => Res::Ok(map.iter().map(|(k, v)| (k.as_str().to_string(), doc_json(v))).collect::<BTreeMap<_, _>>()),
       GateRun::Done(Err(e)) => {
@@ -335,13 +513,18 @@ fn run_multi(flavour: u8, cfg: &Cfg, list: &[u8], ch: &mut Chooser) -> Exec<BTre
   });
   let res = r.unwrap_or_else(|p| Res::Panic(p.into()));
   let log = log.lock().unwrap().clone();
-  Exec { res, log, schedule: gates.schedule() }
+  Exec { res, log, schedule: gates.schedule(), again: None }
 }
 
 // ------------------------------------------------------------------ (a) single resolution
 
 fn judge_single(ctx: &Ctx, case: &Case, cfg: &Cfg, did: &str, ex: &Exec<String>) -> &'static str {
-  let exp = expect(cfg, did);
+  let raw = expect(cfg, did);
+  let exp = raw.clone().settle(cfg, &ex.log);
+  if raw == Exp::JwkEither {
+    // not judged: which of the two handlers attached for `jwk` answers
+    ctx.outcome(if exp == Exp::Jwk { "single:jwk custom-then-built-in: built-in answers" } else { "single:jwk custom-then-built-in: custom answers" });
+  }
   let e = "Resolver::resolve";
   let v = |key: String, what: String| ctx.violation(&key, &format!("{what}; did {did}, call log {:?}", ex.log), case);
   // call log
@@ -360,11 +543,17 @@ fn judge_single(ctx: &Ctx, case: &Case, cfg: &Cfg, did: &str, ex: &Exec<String>)
     }
     _ => {}
   }
+  // a resolver keeps no state between resolutions: the second one invokes the handler again and returns the same
+  if let Some((res2, log2)) = &ex.again {
+    if *res2 != ex.res || *log2 != ex.log {
+      v(format!("{e}|second-resolution-on-the-same-resolver-differs"), format!("first {:?} with calls {:?}; second {res2:?} with calls {log2:?}", ex.res, ex.log));
+    }
+  }
   if ex.log != want_log {
     let class = match &exp {
       Exp::Unsupported(_) => "unsupported-method|a-handler-was-called",
       Exp::Unparsable => "did-not-parsable-by-handler|a-handler-was-called",
-      Exp::Jwk => "did-jwk|a-harness-handler-was-called",
+      Exp::Jwk | Exp::JwkEither => "did-jwk|a-harness-handler-was-called",
       Exp::Handler { .. } => {
         if ex.log.is_empty() {
           "handler-not-called"
@@ -427,11 +616,24 @@ fn judge_single(ctx: &Ctx, case: &Case, cfg: &Cfg, did: &str, ex: &Exec<String>)
       v(format!("{e}|did:jwk|public-jwk-rejected"), format!("got {desc}"));
       "single:did-jwk"
     }
-    (_, Res::Panic(_)) | (_, Res::Deadlock) => unreachable!(),
+    (_, Res::Panic(_)) | (_, Res::Deadlock) | (Exp::JwkEither, _) => unreachable!(),
   }
 }
 
 // ------------------------------------------------------------------ (b) resolve_multiple
+
+/// Canonical outcome of one execution, for comparisons between executions of the same list: the sorted map; the error
+/// when exactly one distinct DID cannot be resolved (it is then the same in every execution); just "Err" when several
+/// cannot (which of their errors surfaces depends on the completion order and on the HashSet's iteration order).
+fn outcome_of(res: &Res<BTreeMap<String, String>>, failing: usize) -> String {
+  match res {
+    Res::Panic(p) => format!("panic {}", p.key),
+    Res::Deadlock => "never-completes".into(),
+    Res::Ok(map) => format!("Ok {map:?}"),
+    Res::Err(_, desc) if failing <= 1 => format!("Err {desc}"),
+    Res::Err(..) => "Err".into(),
+  }
+}
 
 struct Judged {
   /// canonical outcome of this execution for the comparison over all schedules
@@ -451,7 +653,7 @@ fn judge_multi(
 ) -> Judged {
   let e = "Resolver::resolve_multiple";
   let distinct: BTreeSet<u8> = list.iter().copied().collect();
-  let exps: BTreeMap<&str, (u8, Exp)> = distinct.iter().map(|i| (uni(*i), (*i, expect(cfg, uni(*i))))).collect();
+  let exps: BTreeMap<&str, (u8, Exp)> = distinct.iter().map(|i| (uni(*i), (*i, expect(cfg, uni(*i)).settle(cfg, &singles[i].log)))).collect();
   let failing: Vec<&str> = exps.iter().filter(|(_, (_, x))| x.fails()).map(|(d, _)| *d).collect();
   let fail_kinds: BTreeSet<&str> = failing.iter().map(|d| exps[d].1.kind()).collect();
   let fail_kind = if fail_kinds.len() == 1 { fail_kinds.iter().next().unwrap() } else { "several-kinds" };
@@ -480,20 +682,18 @@ fn judge_multi(
     }
   }
 
-  let (outcome, label);
+  let outcome = outcome_of(&ex.res, failing.len());
+  let label;
   match &ex.res {
     Res::Panic(p) => {
       v(format!("{e}|{}", p.key), p.msg.clone());
-      outcome = format!("panic {}", p.key);
       label = "multi:panic".to_string();
     }
     Res::Deadlock => {
       v(format!("{e}|never-completes"), "future pending with no gate left to open".into());
-      outcome = "never-completes".into();
       label = "multi:deadlock".to_string();
     }
     Res::Ok(map) => {
-      outcome = format!("Ok {map:?}");
       if !failing.is_empty() {
         v(format!("{e}|must-fail|returned-ok|{fail_kind}"), format!("{failing:?} cannot be resolved, yet Ok with keys {:?}", map.keys().collect::<Vec<_>>()));
         label = format!("multi:ok-although-{fail_kind}");
@@ -525,20 +725,15 @@ fn judge_multi(
     Res::Err(variant, desc) => {
       if failing.is_empty() {
         v(format!("{e}|all-resolve|returned-err"), format!("every distinct DID resolves on its own, got {desc}"));
-        outcome = format!("Err {desc}");
         label = "multi:err-although-all-resolve".to_string();
       } else if failing.len() == 1 {
-        // one culprit: the error is comparable (over schedules, and with single resolution by variant)
-        outcome = format!("Err {desc}");
-        label = format!("multi:err/{fail_kind}");
+        // one culprit: the error is the same over all schedules. Whether resolve_multiple reports it with the same
+        // ErrorCause variant as single resolution does is not promised ("fails if any one of them fails"): recorded.
         let i = exps[failing[0]].0;
-        match &singles[&i].res {
-          Res::Err(sv, _) if sv == variant => {}
-          other => v(format!("{e}|one-fails|error-kind-differs-from-single-resolution"), format!("{}: multiple gives {desc}, single gives {other:?}", failing[0])),
-        }
+        let same = matches!(&singles[&i].res, Res::Err(sv, _) if sv == variant);
+        label = format!("multi:err/{fail_kind}/{}", if same { "variant-of-single-resolution" } else { "another-variant-than-single-resolution" });
       } else {
         // several culprits: which error surfaces is not compared
-        outcome = "Err".to_string();
         label = format!("multi:err/{}-of-{}-fail/{fail_kind}", failing.len(), distinct.len());
       }
     }
@@ -557,6 +752,38 @@ struct Agg {
   lists_with_gt1_schedule: u64,
 }
 static AGG: Lazy<Mutex<BTreeMap<(u8, usize), Agg>>> = Lazy::new(Default::default);
+/// lists with more than one schedule for which the executor was offered exactly all interleavings of the handlers' gates
+static FULLY_INTERLEAVED: std::sync::atomic::AtomicU64 = std::sync::atomic::AtomicU64::new(0);
+
+/// Number of orders in which the gates of the (all successful) handlers of one list can be opened.
+fn expected_schedules(cfg: &Cfg, exps: &[Exp]) -> u64 {
+  let mut chains: Vec<u64> = Vec::new(); // sequential gates of one invocation
+  let mut foo = 0u64;
+  for x in exps {
+    if let Exp::Handler { name, gates, .. } = x {
+      if *name == "foo" && cfg.shape != 0 {
+        foo += 1;
+      } else {
+        chains.push(*gates as u64);
+      }
+    }
+  }
+  let k = cfg.k_foo as u64;
+  match cfg.shape {
+    // every own gate of a joining invocation is open-able at any time
+    1 => {
+      chains.extend(std::iter::repeat(1).take((foo * k) as usize));
+      multinomial(&chains)
+    }
+    // the shared gate precedes m chains of k-1 own gates: (orders of that partial order) x (merges with the other chains)
+    2 if foo > 0 => {
+      let own: Vec<u64> = std::iter::repeat(k - 1).take(foo as usize).collect();
+      chains.push(1 + foo * (k - 1));
+      multinomial(&own) * multinomial(&chains)
+    }
+    _ => multinomial(&chains),
+  }
+}
 
 fn multinomial(ks: &[u64]) -> u64 {
   let mut r: u64 = 1;
@@ -610,12 +837,38 @@ fn eval_list(ctx: &Ctx, flavour: u8, cfg: &Cfg, list: &[u8]) {
       &case,
     );
   }
-  // ---- machinery guard: when everything resolves, the executor must have offered every interleaving
-  let exps: Vec<Exp> = distinct.iter().map(|i| expect(cfg, uni(*i))).collect();
+  let exps: Vec<Exp> = distinct.iter().map(|i| expect(cfg, uni(*i)).settle(cfg, &singles[i].log)).collect();
+  // ---- the same list given as another DID type (the foo handler's own): same outcome, keyed by the input values
+  if !list.is_empty() && acc.outcomes.len() == 1 && !acc.violated {
+    if let Ok(typed) = list.iter().map(|i| PickyDid::check(DIDS[*i as usize].clone())).collect::<Result<Vec<PickyDid>, HErr>>() {
+      let ex = run_multi_as(flavour, cfg, &typed, &mut Chooser::replay(&[]));
+      let typed_outcome = outcome_of(&ex.res, exps.iter().filter(|x| x.fails()).count());
+      ctx.add_evals(1);
+      *hist.entry("list:also-as-PickyDid-input".into()).or_insert(0) += 1;
+      let untyped = acc.outcomes.keys().next().unwrap();
+      if typed_outcome != *untyped {
+        ctx.violation(
+          "Resolver::resolve_multiple|outcome-depends-on-the-DID-type-of-the-input",
+          &format!("list {names:?}: given as CoreDID => {untyped}; given as the handler's own DID type => {typed_outcome}"),
+          &case,
+        );
+      }
+    }
+  }
+  // ---- how many schedules the executor was offered, against the number of interleavings of the harness handlers' gates
+  // (equal as long as resolve_multiple polls all distinct DIDs concurrently; a resolver that limits concurrency offers
+  // fewer and still satisfies the statement: recorded per list, and guarded once for the whole run in `generate`)
   if !acc.violated && exps.iter().all(|x| !x.fails()) {
-    let ks: Vec<u64> = exps.iter().filter_map(|x| if let Exp::Handler { gates, .. } = x { Some(*gates as u64) } else { None }).collect();
-    let want = multinomial(&ks);
-    ctx.require(st.executions == want, &format!("list {names:?} cfg {cfg:?}: {} schedules explored, {want} interleavings exist", st.executions));
+    let want = expected_schedules(cfg, &exps);
+    let l = if st.executions == want {
+      if want > 1 {
+        FULLY_INTERLEAVED.fetch_add(1, std::sync::atomic::Ordering::Relaxed);
+      }
+      "list:every-interleaving-of-the-gates-explored"
+    } else {
+      "list:schedules-differ-from-the-interleavings-of-the-gates"
+    };
+    *hist.entry(l.into()).or_insert(0) += 1;
   }
   let bucket = match st.executions {
     1 => "list:1-schedule",
@@ -650,6 +903,9 @@ struct JwkInput {
   secret: bool,
   /// 0 = only registered members with canonical values (key equality is judged)
   extra: usize,
+  /// the family on which expansion is demanded: a public JWK of registered members whose `use` / `key_ops` / `alg` agree
+  /// with each other and with the key type, without an `x5c` chain (a stricter did:jwk implementation may validate those)
+  core: bool,
   kty_label: &'static str,
 }
 
@@ -675,7 +931,7 @@ fn jwk_input(wide: bool, ch: &mut Chooser) -> (JwkInput, usize) {
   let x5t256 = ch.choose("x5t#S256", 2);
   let extra = ch.choose("extra", 3);
   let order = ch.choose("order", 2);
-  let route = ch.choose("route", 7);
+  let route = ch.choose("route", ROUTES.len());
 
   let b = |n: usize, mul: u8, add: u8| q(&b64url(&bytes(n, mul, add)));
   let mut m: Vec<(&str, String)> = Vec::new();
@@ -755,10 +1011,19 @@ fn jwk_input(wide: bool, ch: &mut Chooser) -> (JwkInput, usize) {
   }
   let text = format!("{{{}}}", m.iter().map(|(k, v)| format!("{}:{v}", q(k))).collect::<Vec<_>>().join(","));
   let did = format!("did:jwk:{}", b64url(text.as_bytes()));
-  (JwkInput { text, did, secret: private != 0 || kty == 6, extra, kty_label }, route)
+  let secret = private != 0 || kty == 6;
+  let signs = use_ == 1 || key_ops == 1;
+  let encrypts = use_ == 2 || key_ops == 2;
+  let consistent = !(signs && encrypts)
+    && !(signs && kty == 1) // X25519 does not sign
+    && !(encrypts && kty == 0) // Ed25519 does not encrypt
+    && !(key_ops == 2 && (2..=4).contains(&kty)) // an EC key agrees on keys, it neither encrypts nor wraps
+    && !(encrypts && alg > 0 && kty != 1); // the alg values of the other key types are signature algorithms
+  let core = !secret && extra == 0 && x5c == 0 && consistent;
+  (JwkInput { text, did, secret, extra, core, kty_label }, route)
 }
 
-const ROUTES: [&str; 7] = [
+const ROUTES: [&str; 9] = [
   "CoreDocument::expand_did_jwk",
   "Resolver::resolve(&CoreDID)",
   "Resolver::resolve(&DIDJwk)",
@@ -766,6 +1031,8 @@ const ROUTES: [&str; 7] = [
   "SingleThreadedResolver::resolve(&DIDJwk)",
   "Resolver::resolve_multiple",
   "SingleThreadedResolver::resolve_multiple",
+  "Resolver::resolve_multiple(&[DIDJwk])",
+  "SingleThreadedResolver::resolve_multiple(&[DIDJwk])",
 ];
 
 enum RouteRes {
@@ -795,11 +1062,29 @@ fn jwk_route(route: usize, did: &str) -> RouteRes {
       0 => CoreDocument::expand_did_jwk(typed()?).map_err(|e| ("expand_did_jwk", e.to_string())),
       1 | 3 => vx::gate::block_on(resolver((route / 2) as u8).resolve(&core()?)).map_err(rerr),
       2 | 4 => vx::gate::block_on(resolver((route / 2 - 1) as u8).resolve(&typed()?)).map_err(rerr),
-      _ => {
+      5 | 6 => {
         let d = core()?;
         let mut map = vx::gate::block_on(resolver((route - 5) as u8).resolve_multiple(&[d.clone(), d.clone()])).map_err(rerr)?;
         if map.len() != 1 {
           return Err(("map-size", format!("{} entries for one distinct DID", map.len())));
+        }
+        map.remove(&d).ok_or(("map-key", "the entry is not under the input DID".to_string()))
+      }
+      _ => {
+        // DIDJwk-typed list together with a second did:jwk DID: [d, other, d]
+        let d = typed()?;
+        let other = DIDJwk::parse(uni(13)).map_err(|e| ("harness DIDJwk", e.to_string()))?;
+        let n = if d == other { 1 } else { 2 };
+        let mut map = vx::gate::block_on(resolver((route - 7) as u8).resolve_multiple(&[d.clone(), other.clone(), d.clone()])).map_err(rerr)?;
+        if map.len() != n {
+          return Err(("map-size", format!("{} entries for {n} distinct DIDs", map.len())));
+        }
+        let o = map.remove(&other).ok_or(("map-key", "no entry under the second input DID".to_string()))?;
+        if Some(&o) != CoreDocument::expand_did_jwk(other.clone()).ok().as_ref() {
+          return Err(("map-value", "the entry of the second DID is not its expansion".to_string()));
+        }
+        if d == other {
+          return Ok(o);
         }
         map.remove(&d).ok_or(("map-key", "the entry is not under the input DID".to_string()))
       }
@@ -829,15 +1114,36 @@ fn jwk_body(ctx: &Ctx, wide: bool, ch: &mut Chooser) {
     }
     RouteRes::Err(stage, msg) => {
       outcome = "rejected";
-      if !inp.secret && inp.extra == 0 {
+      if inp.core {
         let entry = if *stage == "DIDJwk::parse" { "DIDJwk::parse" } else { e0 };
         v(format!("{entry}|public-jwk|rejected"), format!("{stage}: {msg}"));
+      } else if !inp.secret && inp.extra == 0 {
+        // a public JWK outside the family expansion is demanded on (x5c chain, use / key_ops / alg at odds): recorded
+        ctx.outcome("jwk:public-outside-the-core-family:rejected");
       }
     }
     RouteRes::Ok(doc) => {
       outcome = "expanded";
+      if !inp.core && !inp.secret && inp.extra == 0 {
+        ctx.outcome("jwk:public-outside-the-core-family:expanded");
+      }
       if inp.secret {
-        v(format!("{e0}|private-jwk|accepted"), "a document was built from a JWK with private members".into());
+        // judged: the document must not publish private key material. A document that carries only the public members
+        // of a private JWK is not excluded by the statement: recorded.
+        let j = serde_json::to_value(doc).unwrap_or(Value::Null);
+        let leaked: Vec<String> = j["verificationMethod"]
+          .as_array()
+          .into_iter()
+          .flatten()
+          .filter_map(|vm| vm["publicKeyJwk"].as_object())
+          .flat_map(|o| o.keys().cloned())
+          .filter(|k| ["d", "p", "q", "dp", "dq", "qi", "oth", "k"].contains(&k.as_str()))
+          .collect();
+        if leaked.is_empty() {
+          ctx.outcome("jwk:private:expanded-without-the-private-members");
+        } else {
+          v(format!("{e0}|private-jwk|accepted"), format!("a document was built from a JWK with private members; it carries {leaked:?}"));
+        }
       }
       if route == 0 {
         // the document, as the public (JSON) representation and through the API
@@ -871,7 +1177,9 @@ fn jwk_body(ctx: &Ctx, wide: bool, ch: &mut Chooser) {
             v(format!("{e0}|method-controller-is-not-the-did"), format!("{}", vm["controller"]));
           }
           let same = vm["publicKeyJwk"] == want_key;
-          if inp.extra == 0 {
+          if inp.secret {
+            // see above
+          } else if inp.extra == 0 {
             if !same {
               v(format!("{e0}|method-key-differs-from-the-encoded-jwk"), format!("publicKeyJwk {}", vm["publicKeyJwk"]));
             }
@@ -941,24 +1249,28 @@ fn eval_raw(ctx: &Ctx, payload: u8, case: &Case) {
 // ------------------------------------------------------------------ driver
 
 /// `resolve_multiple` pushes its futures in the iteration order of a `HashSet` with std's `RandomState`, which nothing
-/// outside std can control. That order decides nothing but the order of the FIRST poll: it is invisible for gated
-/// handlers (all of them register their first gate before any gate is opened) and it is the completion order of the
-/// futures that are ready at their first poll (unsupported method, unparsable DID, did:jwk, failure before any gate).
-/// On a tree where the verdict of such a list depended on it, a single re-execution might not reproduce a violation;
-/// REPLAYS (never the exploration) therefore re-execute such a case this many times (each `HashSet` gets fresh keys)
-/// and report the union, so that a replay verdict is reproducible. The controllable twins of those cases (failure after
-/// a gate, success after a gate) are enumerated exhaustively by the exploration itself.
-fn replay_repeats(cfg: &Cfg, list: &[u8]) -> usize {
+/// outside std can control and which is drawn anew in every execution. On the current tree that order decides nothing
+/// but the order of the FIRST poll: it is invisible for gated handlers (all of them register their first gate before
+/// any gate is opened) and it is the completion order of the futures that are ready at their first poll (unsupported
+/// method, unparsable DID, did:jwk, failure before any gate) and of handlers woken by one shared gate; no verdict of this
+/// check on a tree that satisfies the statement depends on it. On a changed tree a verdict may depend on it (e.g. results
+/// zipped with that order), and a single re-execution might then not reproduce a violation; REPLAYS (never the
+/// exploration) therefore re-execute a case with two or more distinct DIDs many times and report the union, so that a
+/// replay verdict is reproducible. `schedules` = upper bound of the executions of one repetition.
+fn replay_repeats(cfg: &Cfg, list: &[u8], schedules: u64) -> usize {
   let distinct: BTreeSet<u8> = list.iter().copied().collect();
-  let immediate = distinct.iter().any(|i| match expect(cfg, uni(*i)) {
-    Exp::Unsupported(_) | Exp::Unparsable | Exp::Jwk => true,
-    Exp::Handler { fails, .. } => fails && cfg.fail_at == Some(0),
-  });
-  if distinct.len() >= 2 && immediate {
-    256
+  if distinct.len() >= 2 {
+    (200_000 / schedules.max(1)).clamp(1, 256) as usize
   } else {
+    let _ = cfg;
     1
   }
+}
+/// Upper bound of the number of schedules of one list (as if no handler failed).
+fn schedules_bound(cfg: &Cfg, list: &[u8]) -> u64 {
+  let distinct: BTreeSet<u8> = list.iter().copied().collect();
+  let exps: Vec<Exp> = distinct.iter().map(|i| expect(cfg, uni(*i))).collect();
+  expected_schedules(cfg, &exps)
 }
 
 fn eval(ctx: &Ctx, case: &Case) {
@@ -975,7 +1287,7 @@ fn eval(ctx: &Ctx, case: &Case) {
     Case::Schedule { flavour, cfg, list, seq } => {
       let distinct: BTreeSet<u8> = list.iter().copied().collect();
       let mut label = String::new();
-      for _ in 0..replay_repeats(cfg, list) {
+      for _ in 0..replay_repeats(cfg, list, 1) {
         ctx.eval1();
         let singles: BTreeMap<u8, Exec<String>> = distinct.iter().map(|i| (*i, run_single(*flavour, cfg, *i))).collect();
         let mut ch = Chooser::replay(seq);
@@ -985,7 +1297,7 @@ fn eval(ctx: &Ctx, case: &Case) {
       ctx.outcome(&label);
     }
     Case::List { flavour, cfg, list } => {
-      for _ in 0..replay_repeats(cfg, list) {
+      for _ in 0..replay_repeats(cfg, list, schedules_bound(cfg, list)) {
         eval_list(ctx, *flavour, cfg, list)
       }
     }
@@ -997,15 +1309,28 @@ fn eval(ctx: &Ctx, case: &Case) {
   }
 }
 
+/// Every configuration of one handler table; parameters of handlers that are not in the table are not varied.
 fn cfgs(tables: &[u8]) -> Vec<Cfg> {
   let mut out = Vec::new();
   for &table in tables {
-    for k_foo in 1..=2u8 {
-      for k_bar in 1..=2u8 {
-        let mut fails: Vec<Option<u8>> = vec![None];
-        fails.extend((0..=k_foo).map(Some));
-        for fail_at in fails {
-          out.push(Cfg { table, k_foo, k_bar, fail_at });
+    let foo = table & T_FOO != 0;
+    let bar_gates = table & (T_BAR | T_JWKC_FIRST | T_JWKC_LAST) != 0;
+    for k_foo in 1..=if foo { 2u8 } else { 1 } {
+      for k_bar in 1..=if bar_gates { 2u8 } else { 1 } {
+        for shape in 0..if foo { 3u8 } else { 1 } {
+          if shape == 1 && k_foo < 2 {
+            continue; // a join of one gate is shape 0
+          }
+          let mut fails: Vec<Option<u8>> = vec![None];
+          if foo {
+            match shape {
+              1 => fails.extend([Some(0), Some(k_foo)]), // before / after the join
+              _ => fails.extend((0..=k_foo).map(Some)),
+            }
+          }
+          for fail_at in fails {
+            out.push(Cfg { table, k_foo, k_bar, fail_at, shape });
+          }
         }
       }
     }
@@ -1031,19 +1356,58 @@ fn lists(universe: &[u8], max_len: usize) -> Vec<Vec<u8>> {
   all
 }
 
+/// Lists of 5 - 7 entries over up to 6 distinct gated DIDs (the whole tree of schedules of each), for the full table with
+/// and without the replaced decoy: (list, configurations).
+fn long_lists(thorough: bool) -> Vec<(Vec<u8>, Vec<Cfg>)> {
+  let base5: Vec<u8> = vec![0, 2, 1, 5, 7]; // foo:1 bar:1 foo:2 bar:2 foo:bar:1
+  let with = |l: &[u8], x: u8| l.iter().copied().chain([x]).collect::<Vec<u8>>();
+  let cfgs_of = |ks: &[(u8, u8)], all_fail_points: bool| {
+    let mut out = Vec::new();
+    for table in [T_FOO | T_BAR | T_JWK, T_FOO | T_BAR | T_JWK | T_REPLACED] {
+      for &(k_foo, k_bar) in ks {
+        let mut fails = vec![None, Some(1)];
+        if all_fail_points {
+          fails.extend((0..=k_foo).filter(|j| *j != 1).map(Some));
+        }
+        for fail_at in fails {
+          out.push(Cfg { table, k_foo, k_bar, fail_at, shape: 0 });
+        }
+      }
+    }
+    out
+  };
+  let mut out = Vec::new();
+  // 5 distinct, and with a duplicate 5 positions away / an unsupported method / did:jwk / a DID the handler cannot parse
+  out.push((base5.clone(), cfgs_of(if thorough { &[(1, 1), (2, 1), (1, 2)] } else { &[(1, 1)] }, true)));
+  for x in [0u8, 3, 4, 12] {
+    out.push((with(&base5, x), cfgs_of(&[(1, 1)], true)));
+  }
+  if thorough {
+    out.push((with(&base5, 0), cfgs_of(&[(2, 1), (1, 2)], true)));
+    out.push((base5.clone(), cfgs_of(&[(2, 2)], false))); // 10!/2^5 = 113 400 schedules
+    let base6 = with(&base5, 11);
+    out.push((base6.clone(), cfgs_of(&[(1, 1)], true)));
+    out.push((with(&base6, 0), cfgs_of(&[(1, 1)], true)));
+  }
+  out
+}
+
 fn generate(ctx: &Ctx) {
   ctx.rule(
     "(a) full product flavour x configuration x DID for single resolve; (b) every DID list up to the length bound over the universe x \
-     configuration x flavour, and for each the WHOLE tree of gate-opening orders (E1 over the E3b executor, bound None); (c) whole choice tree \
-     kty x private x optional members x extra x member order x route. distinct_nontrivial = distinct (flavour, configuration, list) whose \
-     exploration opened at least one gate + distinct single resolutions that reach a handler + distinct (JWK text, route) that expand",
+     configuration x flavour (plus the long lists of bound long_lists), and for each the WHOLE tree of gate-opening orders (E1 over the E3b \
+     executor, bound None); (c) whole choice tree kty x private x optional members x extra x member order x route. distinct_nontrivial = distinct \
+     (flavour, configuration, list) whose exploration opened at least one gate + distinct single resolutions that reach a handler + distinct \
+     (JWK text, route) that expand",
   );
   ctx.assume("the gate executor polls the root future on one thread; handlers that spawn onto other threads or use real timers/IO are outside the explored space");
-  ctx.assume("the order in which resolve_multiple first polls its futures is the iteration order of a std HashSet (RandomState) and cannot be controlled from outside: for futures that are ready at their first poll (unsupported method, unparsable DID, did:jwk, failure before any gate) the completion order is whatever that order is in the execution at hand; their gated twins (failure / success after a gate) are enumerated exhaustively. Verdicts on the explored tree do not depend on it; replays of such cases are repeated 256 times");
+  ctx.assume("the order in which resolve_multiple first polls its futures is the iteration order of a std HashSet (RandomState) and cannot be controlled from outside: for futures that are ready at their first poll (unsupported method, unparsable DID, did:jwk, failure before any gate) the completion order is whatever that order is in the execution at hand, and so is the order in which handlers waiting on ONE shared gate complete; their gated twins (failure / success after own gates) are enumerated exhaustively. No verdict on a tree that satisfies the statement depends on it; replays of cases with two or more distinct DIDs are repeated (up to 256 times) so that verdicts on changed trees, which may depend on it, reproduce");
+  ctx.assume("resolve_multiple starts the resolution of all distinct DIDs before it waits for any of them (documented: 'Concurrently fetches'); a resolver that bounds the number in flight would register a set of gates that depends on the HashSet order, which the explorer reports as a machinery error (replay divergence, exit 2), never as a verdict");
   ctx.assume("serde_json is trusted to parse the harness's own JWK text; base64url of the did:jwk identifiers is the harness's own encoder");
   ctx.assume("the harness handlers are the only source of asynchrony: every suspension point of a handler is a named gate, so all completion orders and all interleavings of 1- and 2-step handlers are enumerated");
 
-  // tables: all subsets of {foo, bar, jwk} and, where foo is present, the variant where foo's handler replaced a decoy
+  // tables: all subsets of {foo, bar, jwk}; where foo is present, also the variant where foo's handler replaced a decoy;
+  // for the full table the three ways of attaching a custom `jwk` handler besides / instead of the built-in one
   let mut tables = Vec::new();
   for t in 0..8u8 {
     tables.push(t);
@@ -1051,23 +1415,33 @@ fn generate(ctx: &Ctx) {
       tables.push(t | T_REPLACED);
     }
   }
+  tables.extend([T_FOO | T_BAR | T_JWK | T_JWKC_FIRST, T_FOO | T_BAR | T_JWK | T_JWKC_LAST, T_FOO | T_BAR | T_JWKC_LAST]);
   let cfgs = cfgs(&tables);
-  let universe: Vec<u8> = ctx.by_tier((0..5).collect(), (0..8).collect());
+  // lists: quick: length <= 3 over 7 DIDs; thorough: length <= 4 over the 8 DIDs of the first round and length <= 3 over 11
+  let core: Vec<u8> = ctx.by_tier(vec![0, 1, 2, 3, 4, 11, 12], (0..8).collect());
+  let wide: Vec<u8> = ctx.by_tier(vec![], (0..8).chain(11..14).collect());
   let max_len = ctx.by_tier(3, 4);
-  ctx.bound("universe", universe.iter().map(|i| uni(*i)).collect::<Vec<_>>());
-  ctx.bound("single_resolution_only", (8..UNIVERSE.len() as u8).map(uni).collect::<Vec<_>>());
+  let all_dids: Vec<u8> = (0..UNIVERSE.len() as u8).collect();
+  ctx.bound("universe", core.iter().map(|i| uni(*i)).collect::<Vec<_>>());
   ctx.bound("max_list_len", max_len);
+  if !wide.is_empty() {
+    ctx.bound("wider_universe", wide.iter().map(|i| uni(*i)).collect::<Vec<_>>());
+    ctx.bound("max_list_len_over_wider_universe", max_len - 1);
+  }
+  ctx.bound("single_resolution", all_dids.iter().map(|i| uni(*i)).collect::<Vec<_>>());
   ctx.bound("handler_tables", tables.len());
+  ctx.bound("keys_attached_that_no_method_spells", DECOYS.iter().map(|d| d.0).collect::<Vec<_>>());
   ctx.bound("configurations", cfgs.len());
   ctx.bound("gates_per_handler", "1..=2 per method, independently");
-  ctx.bound("failure_points_of_did:foo:2", "none, or after 0..=k_foo gates");
+  ctx.bound("foo_handler_shapes", "own gates in sequence | all own gates joined | one gate shared by all invocations, then own gates");
+  ctx.bound("failure_points_of_did:foo:2", "none, or after 0..=k_foo gates (joined gates: before / after the join)");
   ctx.bound("schedules", "all (deviation bound None)");
 
   // (a)
   let mut singles = Vec::new();
   for flavour in 0..2u8 {
     for cfg in &cfgs {
-      for did in universe.iter().copied().chain(8..UNIVERSE.len() as u8) {
+      for did in all_dids.iter().copied() {
         singles.push(Case::Single { flavour, cfg: cfg.clone(), did });
       }
     }
@@ -1080,14 +1454,32 @@ fn generate(ctx: &Ctx) {
   ctx.part("single resolve", json!({"engine": "E1 full product", "cases": singles.len()}));
 
   // (b)
-  let lists = lists(&universe, max_len);
+  let mut all_lists: BTreeSet<Vec<u8>> = lists(&core, max_len).into_iter().collect();
+  if !wide.is_empty() {
+    all_lists.extend(lists(&wide, max_len - 1));
+  }
+  let lists: Vec<Vec<u8>> = all_lists.into_iter().collect();
   let jobs: Vec<(u8, &Cfg)> = (0..2u8).flat_map(|f| cfgs.iter().map(move |c| (f, c))).collect();
-  let full = cfgs.iter().find(|c| c.table == 7 && c.k_foo == 2 && c.k_bar == 2 && c.fail_at.is_none()).expect("full cfg");
+  let full = cfgs.iter().find(|c| c.table == 7 && c.k_foo == 2 && c.k_bar == 2 && c.fail_at.is_none() && c.shape == 0).expect("full cfg");
   ctx.sample("resolve_multiple", &Case::List { flavour: 0, cfg: full.clone(), list: vec![0, 2, 0] });
   ctx.sample("resolve_multiple", &Case::Schedule { flavour: 1, cfg: full.clone(), list: vec![0, 2], seq: vec![1, 0, 1] });
+  // the joined / shared-gate shapes multiply the schedules of a list (a join of 2 gates doubles them per invocation):
+  // they are explored for the lists up to length 3, the sequential shape for all lists
+  let shaped_len = 3;
   jobs.par_iter().for_each(|(flavour, cfg)| {
-    lists.par_iter().for_each(|list| eval_list(ctx, *flavour, cfg, list));
+    lists.par_iter().filter(|l| cfg.shape == 0 || l.len() <= shaped_len).for_each(|list| eval_list(ctx, *flavour, cfg, list));
   });
+  ctx.bound("lists", lists.len());
+  ctx.bound("max_list_len_for_joined_and_shared_gate_shapes", shaped_len.min(max_len));
+  // long lists: few, each with a big tree (the explorer spreads one tree over the pool)
+  let long = long_lists(ctx.thorough());
+  ctx.bound("long_lists", long.iter().map(|(l, c)| json!({"list": l.iter().map(|i| uni(*i)).collect::<Vec<_>>(), "configurations": c.len()})).collect::<Vec<_>>());
+  ctx.sample("resolve_multiple long list", &Case::List { flavour: 0, cfg: long[1].1[0].clone(), list: long[1].0.clone() });
+  for (list, cs) in &long {
+    for flavour in 0..2u8 {
+      cs.par_iter().for_each(|cfg| eval_list(ctx, flavour, cfg, list));
+    }
+  }
   for ((flavour, len), a) in AGG.lock().unwrap().iter() {
     ctx.part(
       &format!("resolve_multiple {} len={len}", if *flavour == 0 { "Resolver" } else { "SingleThreadedResolver" }),
@@ -1096,7 +1488,10 @@ fn generate(ctx: &Ctx) {
         "explorations_with_more_than_one_schedule": a.lists_with_gt1_schedule}),
     );
   }
-  ctx.bound("lists", lists.len());
+  // vacuity guard of the schedule quantifier: somewhere the executor was offered every interleaving of more than one schedule
+  let fully = FULLY_INTERLEAVED.load(std::sync::atomic::Ordering::Relaxed);
+  ctx.part("resolve_multiple schedules", json!({"explorations_with_more_than_one_schedule_that_covered_every_interleaving_of_the_gates": fully}));
+  ctx.require(fully > 0, "no list exploration was offered every interleaving of its handlers' gates: the completion-order quantifier is vacuous");
 
   // (c)
   let wide = ctx.thorough();
